@@ -260,6 +260,18 @@ def run(ctx):
                             d_ = xitorch.interpolate.Interp1D(xt[perm], method="cspline", bc_type=bc)(xq, yt[perm])
                             if why is None and not torch.allclose(a, d_, atol=1e-11):
                                 why = "shuffled samples with y given at call time give different values (max dev %.2e)" % float((a - d_).abs().max())
+                            # orderings of the samples as a class of their own: exactly descending, rotated (sorted in two runs), swapped ends
+                            for oname, op_ in (("descending", np.arange(nk)[::-1].copy()), ("rotated", np.roll(np.arange(nk), nk // 2)), ("ends swapped", np.array([nk - 1] + list(range(1, nk - 1)) + [0]))):
+                                if why is not None:
+                                    break
+                                for mth, refv in (("cspline", a), ("linear", None)):
+                                    kwm = dict(method=mth, bc_type=bc) if mth == "cspline" else dict(method=mth)
+                                    rv = refv if refv is not None else xitorch.interpolate.Interp1D(xt, yt, **kwm)(xq)
+                                    o1 = xitorch.interpolate.Interp1D(xt[op_], yt[op_], **kwm)(xq)
+                                    o2 = xitorch.interpolate.Interp1D(xt[op_], **kwm)(xq, yt[op_])
+                                    if why is None and not (torch.allclose(rv, o1, atol=1e-11) and torch.allclose(rv, o2, atol=1e-11)):
+                                        why = "%s samples in %s order (y at %s) give different values than the sorted samples (max dev %.2e)" % (
+                                            mth, oname, "construction" if not torch.allclose(rv, o1, atol=1e-11) else "call time", max(float((rv - o1).abs().max()), float((rv - o2).abs().max())))
                             if bc != "periodic":
                                 yb2 = torch.stack([yt, 2.0 * yt - 1.0])
                                 e_ = xitorch.interpolate.Interp1D(xt[perm], yb2[:, perm], method="cspline", bc_type=bc)(xq)
